@@ -80,6 +80,15 @@ func classify(t *sq.Table, col string, want, got sq.Val) string {
 			// the value came out as the DEFAULT literal without the column's affinity applied
 			return "default-affinity"
 		}
+		if gs, ok := got.(string); ok && cdef.Dflt != nil {
+			// DEFAULT TRUE / DEFAULT FALSE: SQLite (3.23+) reads the bare keywords as 1 / 0
+			d := strings.ToLower(strings.TrimSpace(*cdef.Dflt))
+			if (d == "true" || d == "false") && strings.ToLower(gs) == d {
+				if n, isNum := asNumber(want); isNum && ((d == "true" && n == 1) || (d == "false" && n == 0)) {
+					return "default-true-false"
+				}
+			}
+		}
 	}
 	return fmt.Sprintf("%T->%T", want, got)
 }
